@@ -80,9 +80,19 @@ def main(tier, seed):
                 elif rng.random() < 0.3:
                     X = X.astype(np.float32)     # single-precision features: dtype and values must survive the round trip
                     stats["float32"] = stats.get("float32", 0) + 1
+                view = rng.choice(["own", "own", "offset", "stride", "reversed", "columns"])
+                if view == "offset":
+                    X = np.vstack([np.full((3, X.shape[1]), 77.0, dtype=X.dtype), X])[3:]          # rows 3.. of a larger array
+                elif view == "stride":
+                    big_ = np.full((2 * len(X), X.shape[1]), 55.0, dtype=X.dtype); big_[1::2] = X; X = big_[1::2]
+                elif view == "reversed":
+                    X = X[::-1].copy()[::-1]
+                elif view == "columns":
+                    big_ = np.full((len(X), X.shape[1] + 2), 33.0, dtype=X.dtype); big_[:, 1:-1] = X; X = big_[:, 1:-1]
+                stats["views"] = stats.get("views", {}); stats["views"][view] = stats["views"].get(view, 0) + 1
                 Y = np.array([j % 2 for j in range(n)])
                 Xq, Yq = X[n:], np.array([0, 1, 0, 1, 0])
-                desc = dict(model=kname, metric=metric, precomputed=pre, X=X.tolist(), Y=Y.tolist())
+                desc = dict(model=kname, metric=metric, precomputed=pre, X=X.tolist(), Y=Y.tolist(), X_memory_layout=view)
                 kw = {}
                 if pre:
                     fn = os.path.join(tmp, "d.txt")
